@@ -2,14 +2,14 @@ pub fn is_odd(x: usize) -> bool {
     x % 2 == 1
 }
 
-pub fn read<'a>(src: &'a [u8], length: usize, index: &usize) -> &'a [u8] {
-    &src[*index..*index + length]
+pub fn read<'a>(src: &'a [u8], length: usize, index: &usize) -> Option<&'a [u8]> {
+    src.get(*index..index.checked_add(length)?)
 }
 
-pub fn read_and_advance<'a>(src: &'a [u8], length: usize, index: &mut usize) -> &'a [u8] {
-    let result = read(src, length, index);
+pub fn read_and_advance<'a>(src: &'a [u8], length: usize, index: &mut usize) -> Option<&'a [u8]> {
+    let result = read(src, length, index)?;
     *index += length;
-    result
+    Some(result)
 }
 
 #[cfg(test)]
